@@ -45,3 +45,49 @@ Print Assumptions C02_small_family_near_optimum.
 
 Example C02_family_size : List.length family = 5355%nat.
 Proof. exact family_size. Qed.
+
+(* ======================================================================================================================
+   (3) ONE optimisation pass, exact rationals, kernels of ANY length without alternative port assignments
+   (Proofs/BalancePass.v): C01's one-pass feasibility (slack 1/100 per (micro-op, port)) combined with weak duality (1).
+   kview ports k = the instructions of k with their micro-ops (port numbers) and rows; only lines with a throughput are
+   counted, as in get_throughput_sum; bottleneck = max of the port sums ROUNDED to hundredths (what OSACA reports). *)
+From OV Require Import Proofs.PressureQ Proofs.BalanceMulti Proofs.BalancePass.
+
+Theorem C02_one_pass_bottleneck_ge_optimum : forall ports (k k' : list (instr (T:=Q))) e B S,
+  all_start_ok ports k -> balance QNum ports k = Ok (k', e) -> bottleneck QNum k' = Ok B ->
+  kconfined S (kview ports (filter (counted QNum) k'))
+  - kslack (List.length ports) (1 # 100) S (kview ports (filter (counted QNum) k'))
+  <= card (List.length ports) S * (B + (1 # 200)).
+Proof. exact pass_bottleneck_ge_optimum. Qed.
+Print Assumptions C02_one_pass_bottleneck_ge_optimum.
+
+(* for EVERY non-empty port set S: reported bottleneck >= (cycles of the INPUT kernel's counted micro-ops confined to S) / |S|
+   - 1/100 per counted micro-op not confined to S - 1/200 (rounding of the port sums).  The exact optimum is the maximum of
+   the first term over S, so: bottleneck >= optimum - explicit slack. *)
+Theorem C02_one_pass_near_optimum : forall ports (k k' : list (instr (T:=Q))) e B S,
+  all_start_ok ports k -> balance QNum ports k = Ok (k', e) -> bottleneck QNum k' = Ok B ->
+  0 < card (List.length ports) S ->
+  kconfined S (kview ports (filter (counted QNum) k)) / card (List.length ports) S
+  - (1 # 100) * knonconf S (kview ports (filter (counted QNum) k)) - (1 # 200) <= B.
+Proof. exact pass_bottleneck_near_optimum. Qed.
+Print Assumptions C02_one_pass_near_optimum.
+
+(* non-vacuity: the 3-port kernel of C01_one_pass_nonvacuous; reported bottleneck 0.78 (port 0) *)
+Example C02_one_pass_nonvacuous :
+  all_start_ok exm_ports exm_kernel /\
+  exists k', balance QNum exm_ports exm_kernel = Ok (k', 0%nat) /\ bottleneck QNum k' = Ok (39 # 50) /\
+             0 < card (List.length exm_ports) (fun p => Nat.eqb p 0).
+Proof. split; [exact (proj1 balance_pass_nonvacuous) | exact pass_bottleneck_nonvacuous]. Qed.
+
+(* the same with the sharper slack of Proofs/HallSharp.v: 1/100 per pair (counted micro-op of the input kernel not confined
+   to S, port of S it may use); single-port micro-ops outside S and multi-port micro-ops disjoint from S cost nothing *)
+From OV Require Import Proofs.HallSharp Proofs.BalancePassSharp.
+
+Theorem C02_one_pass_near_optimum_sharp : forall ports (k k' : list (instr (T:=Q))) e B S,
+  all_start_ok ports k -> balance QNum ports k = Ok (k', e) -> bottleneck QNum k' = Ok B ->
+  0 < card (List.length ports) S ->
+  (kconfined S (kview ports (filter (counted QNum) k))
+   - (1 # 100) * kpairs (List.length ports) S (kview ports (filter (counted QNum) k))) / card (List.length ports) S
+  - (1 # 200) <= B.
+Proof. exact pass_bottleneck_near_optimum_sharp. Qed.
+Print Assumptions C02_one_pass_near_optimum_sharp.
